@@ -99,6 +99,10 @@ def real(rng, af, k):
                             jinja_parse_data={"N_EINSUMS": n, "M": rng.choice([2, 4, 6]), "KN": rng.choice([2, 4, 6]), "GlobalBufferSize": rng.choice([64, 256, 4096])})
     if k % 2:
         spec.mapper.metrics = a.Metrics.ENERGY | a.Metrics.LATENCY
+    # instance counts: workload-level and per-Einsum multipliers scale every summable column
+    spec.workload.n_instances = rng.choice([1, 2])
+    for e in spec.workload.einsums:
+        e.n_instances = rng.choice([1, 1, 3, 5])
     m = map_workload_to_arch(spec)
     einsums = [str(e) for e in m.einsum_names]
     return m, {"einsums": einsums, "tensors": {e: [str(t) for t in spec.workload.einsums[e].tensor_names] for e in einsums}, "adversarial": None, "nrows": len(m)}
